@@ -154,7 +154,11 @@ fn finish_fp(r: &mut RunReport, sched_fp: u64, outcomes: &[Vec<ExecInfo>]) {
 fn run_concurrent(plan: &Plan, keep_trace: bool) -> (crate::simenv::SchedResult, Vec<Vec<ExecInfo>>) {
     reset_shared();
     for z in &plan.prewarm {
-        let _ = temporal_rs::verif_hooks::with_shared_provider(|p| p.get(z).map(|_| ()));
+        // earlier use of the process-wide provider; whatever happens here
+        // (error, panic) is history, not an observation
+        let _ = std::panic::catch_unwind(|| {
+            let _ = temporal_rs::verif_hooks::with_shared_provider(|p| p.get(z).map(|_| ()));
+        });
     }
     let results: Arc<Mutex<Vec<Vec<ExecInfo>>>> =
         Arc::new(Mutex::new(plan.threads.iter().map(|_| vec![]).collect()));
